@@ -1,6 +1,7 @@
 import Lean.Data.Json
 import PynguinModel.Model.SubprocessAlign
 import PynguinModel.Model.SubprocessConfig
+import PynguinModel.Model.SubprocessPickle
 /-! Line-protocol driver for C31: one JSON case per line in, one JSON result per line out. -/
 open Lean PynguinModel.SubprocessAlign
 
@@ -8,13 +9,24 @@ deriving instance FromJson, ToJson for Assertion
 deriving instance FromJson, ToJson for Cov
 deriving instance FromJson, ToJson for Res
 
+deriving instance FromJson for RoundTrip
+
+/-- What the harness knows about a probe: the answer of `baditems` itself (`bad` / `raised`), or — `trips` —
+what `dill.copy` does to every single item (measured by the harness, item by item); then the model computes
+the answer of `dill.detect.baditems` as the code calls it (`codeExact`). -/
 inductive ProbeJ (α : Type) where
   | bad (items : List α) | raised
+  | trips (items : List (α × RoundTrip))
   deriving FromJson
 
-def ProbeJ.toProbe : ProbeJ α → Probe α
+/-- An item the harness did not measure cannot occur (the harness measures every item of the result); it
+counts as not picklable so that an incomplete table is noticed. -/
+def tripOf [DecidableEq α] (items : List (α × RoundTrip)) (a : α) : RoundTrip := (dget items a).getD .raises
+
+def ProbeJ.toProbe [DecidableEq α] (all : List α) : ProbeJ α → Probe α
   | .bad items => .bad items
   | .raised => .raised
+  | .trips items => .bad (badItems codeExact (tripOf items) all)
 
 structure ProbesJ where
   excs : ProbeJ Nat
@@ -22,8 +34,10 @@ structure ProbesJ where
   auxOut : List String
   deriving FromJson
 
-def ProbesJ.toProbes (p : ProbesJ) : Probes :=
-  { excs := p.excs.toProbe, asserts := p.asserts.toProbe, aux := fun _ => p.auxOut }
+/-- The probes for result `r`: `baditems(result.exceptions)` and `baditems(list(chain(*trace.values())))`. -/
+def ProbesJ.toProbes (p : ProbesJ) (r : Res) : Probes :=
+  { excs := p.excs.toProbe (r.excs.map (·.1)), asserts := p.asserts.toProbe (allAssertions r.trace),
+    aux := fun _ => p.auxOut }
 
 inductive ReplyJ where
   | noResults | recvFailed | child
@@ -85,7 +99,7 @@ def runExec (c : ExecCase) : Json :=
   let dflt : TestJ := { bound := [], run := timeoutRes, probes := { excs := .bad [], asserts := .bad [], auxOut := [] } }
   let get (i : Nat) : TestJ := c.tests.getD i dflt
   let run (i : Nat) : Res := (get i).run
-  let probe (i : Nat) : Probes := (get i).probes.toProbes
+  let probe (i : Nat) : Probes := (get i).probes.toProbes (get i).run
   let bind (i : Nat) : Bindings := (get i).bound
   let conv (ts : List Nat) (r : ReplyJ) : Reply :=
     match r with
@@ -139,7 +153,7 @@ def runTimed (c : TimedCase) : Json :=
   let size (i : Nat) : Nat := (get i).size
   let dur (i : Nat) : Nat := (get i).dur
   let body (_ _ : Nat) (_ : List String) (i : Nat) : Res := (get i).run
-  let probe (i : Nat) : Probes := (get i).probes.toProbes
+  let probe (i : Nat) : Probes := (get i).probes.toProbes (get i).run
   let bind (i : Nat) : Bindings := (get i).bound
   let loc := (List.range n).map (execute c.cfg size dur body)
   match executeMultiple (remoteCfg 1 c.cfg size dur body probe bind (fun _ => .none)) bind (List.range n) with
@@ -153,7 +167,7 @@ def runCase : Case → Json
     | .ok r => Json.mkObj [("old", toJson old), ("ok", toJson r.trace)]
     | .error e => Json.mkObj [("old", toJson old), ("err", match e with | .key => "KeyError" | .value => "ValueError")]
   | .pickle r p =>
-    let r' := fixForPickle p.toProbes r
+    let r' := fixForPickle (p.toProbes r) r
     Json.mkObj [("res", toJson r'), ("newB", toJson (newBindings r' [(0, "b")]).isSome)]
   | .exec c =>
     if c.tests.length > 1 && c.singles.length != c.tests.length then
